@@ -488,6 +488,34 @@ func cases(seed int64, nTrace, nSeq, everyIndex int) []caseIn {
 	return cs
 }
 
+// readCorpus loads the regression inputs (one JSON case input per file).
+func readCorpus(dir string) []caseIn {
+	if dir == "" {
+		return nil
+	}
+	ents, err := os.ReadDir(dir)
+	if err != nil {
+		return nil
+	}
+	var cs []caseIn
+	for _, e := range ents {
+		if e.IsDir() || len(e.Name()) < 6 || e.Name()[len(e.Name())-5:] != ".json" {
+			continue
+		}
+		b, err := os.ReadFile(dir + "/" + e.Name())
+		if err != nil {
+			continue
+		}
+		var in caseIn
+		if err := json.Unmarshal(b, &in); err != nil {
+			panic("corpus " + e.Name() + ": " + err.Error())
+		}
+		in.Class = "corpus"
+		cs = append(cs, in)
+	}
+	return cs
+}
+
 func main() {
 	outPath := flag.String("out", "cases.jsonl", "output file")
 	seed := flag.Int64("seed", 1, "seed")
@@ -495,6 +523,7 @@ func main() {
 	nSeq := flag.Int("nseq", 60, "random buffered runs")
 	every := flag.Int("every", 4, "short scripts run with a cancellation at every event index")
 	par := flag.Int("par", 48, "runs in parallel")
+	corpus := flag.String("corpus", "", "directory of JSON case inputs that are run first")
 	replay := flag.String("replay", "", "JSON file holding one case input")
 	capIf := flag.String("capture", "", "internal: log the ARP frames seen on this interface")
 	capMS := flag.Int("capms", 2000, "internal: capture duration")
@@ -519,7 +548,7 @@ func main() {
 		}
 		cs = []caseIn{in}
 	} else {
-		cs = cases(*seed, *nTrace, *nSeq, *every)
+		cs = append(readCorpus(*corpus), cases(*seed, *nTrace, *nSeq, *every)...)
 	}
 	outs := make([]caseOut, len(cs))
 	var wg sync.WaitGroup
